@@ -11,32 +11,7 @@ COMMON_NOTE = ("Trusted base / assumptions: floats modelled as reals and ints as
                "(vf/instr.py) — the verified text is the function source re-read from /repo on every run, executed by CPython on "
                "z3-backed symbols; every assumed contract of an external dependency (stub) is named in the evidence file. ")
 
-CLAIMS = {
-    "C01": dict(
-        level="proof",
-        technique="contract-based deductive verification: real function bodies executed on z3 symbols (all paths), VCs discharged by z3; ShapeOnly arrays give all shapes",
-        text="Pre/postconditions on Image.__init__/voxel_size/opposite_corner, CoordinateSystem.__init__/coordinate/voxel/coordinate_vector/"
-             "length/num_voxels, interpret_indexing and the typed point conversions are discharged by z3 for ALL extents >= 1, all "
-             "dimensions > 0, all origins, all integer voxels (inside or outside the image) and all in-voxel offsets in (0,1)^d, per space "
-             "dimension 1-3 x payload kind x call form (single / list / tuple / batch of 1-3 generic rows). A proof over the reals is the "
-             "right level because the property is an algebraic identity of an affine map and its floor-inverse.",
-        note="Not decided by proof: the behaviour of floor() under IEEE rounding (covered only by the concrete companion runs, bounded). "
-             "Batch sizes above 3 rows follow from row-independence of the vectorised code, which is not itself proved.",
-        design="§3 C01"),
-    "C02": dict(
-        level="proof",
-        technique="contract-based deductive verification: real subregion/time_slice/time_interval/append/stack bodies executed on z3 symbols; ShapeOnly arrays (all shapes, symbolic ROIs) for placement, token arrays for data blocks; composition lemma in z3",
-        text="Offset-embedding contract (child voxel v <-> parent voxel v+start: equal coordinate, voxel size, payload axes, time metadata) "
-             "proved for Image.subregion with tuple-of-slices (closed/open ends), VoxelArray and CoordinateArray ROIs (clipped, 2-3 generic "
-             "corner points) for ALL shapes, ROIs, dimensions and origins in 1-3-D; data-block identity by token arrays for every ROI of the "
-             "enumerated shapes; time_slice / time_interval bookkeeping (dates, symbolic relative times, flags) for every index/interval of "
-             "series of 1 and 3 steps; two-level nesting and commutation with time extraction proved directly, arbitrary depth by the "
-             "composition lemma over the contracts; append/stack followed by time_slice returns the originals (data tokens, dates, times+offset).",
-        note="Data-block identity and time bookkeeping are proved per enumerated shape / series length (P/shape), not for all shapes. "
-             "Dates are concrete datetime objects (not symbolic). stack() without dates cannot carry relative times (no offset argument): "
-             "the contract of stack covers dated or time-less images, append(offset) covers relative times.",
-        design="§3 C02"),
-}
+CLAIMS = {p.stem: json.loads(p.read_text()) for p in sorted((ROOT / "tools" / "claims").glob("C*.json"))}
 
 
 def main():
